@@ -79,8 +79,13 @@ pub async fn run_swarm_worker(
     let mut handles = Vec::new();
 
     for (_, receiver) in control_message_receivers.streams() {
-        let handle =
-            spawn_local(handle_control_message_stream(torrents.clone(), receiver)).detach();
+        let handle = spawn_local(handle_control_message_stream(
+            config.clone(),
+            torrents.clone(),
+            server_start_instant,
+            receiver,
+        ))
+        .detach();
 
         handles.push(handle);
     }
@@ -105,8 +110,12 @@ pub async fn run_swarm_worker(
     Ok(())
 }
 
-async fn handle_control_message_stream<S>(torrents: Rc<RefCell<TorrentMaps>>, mut stream: S)
-where
+async fn handle_control_message_stream<S>(
+    config: Config,
+    torrents: Rc<RefCell<TorrentMaps>>,
+    server_start_instant: ServerStartInstant,
+    mut stream: S,
+) where
     S: futures_lite::Stream<Item = SwarmControlMessage> + ::std::marker::Unpin,
 {
     while let Some(message) = stream.next().await {
@@ -118,6 +127,13 @@ where
                 announced_info_hashes,
             } => {
                 let mut torrents = torrents.borrow_mut();
+
+                torrents.note_connection_closed(
+                    &config,
+                    server_start_instant,
+                    consumer_id,
+                    connection_id,
+                );
 
                 for (info_hash, peer_id) in announced_info_hashes {
                     torrents.handle_connection_closed(
